@@ -343,6 +343,7 @@ R4_RULES = [
     ('R4-pin', r'tokio\s*::\s*pin\s*!\s*\(\s*(?P<x>\w+)\s*\)\s*;', r'let mut \g<x> = vx_pin(\g<x>);', None),
     ('R4-deadline', r'Instant\s*::\s*now\s*\(\s*\)\s*\+\s*Duration\s*::\s*from_millis\s*\(\s*(?P<e>[^()]*)\s*\)', r'vx_deadline(\g<e>)', None),
     ('R4-bench-sample-ids', r'self\s*\.\s*current_batch\s*\.\s*iter\s*\(\s*\)\s*\.\s*filter\s*\((?:[^;]*?)\)\s*\.\s*filter_map\s*\((?:[^;]*?)\)\s*\.\s*collect\s*\(\s*\)', r'vx_bench_sample_ids(&self.current_batch)', None),
+    ('R4-retain-open', r'\.\s*retain\s*\(\s*\|\s*\(\s*_\s*,\s*handler\s*\)\s*\|\s*!\s*handler\s*\.\s*is_closed\s*\(\s*\)\s*\)', r'.vx_retain_open()', None),
     ('R4-retain-ge', r'\.\s*retain\s*\(\s*\|\s*k\s*,\s*_\s*\|\s*k\s*>=\s*(?P<r>\w+)\s*\)', r'.vx_retain_keys_ge(\g<r>)', None),
     ('R4-get-map-or-else-stake', r'(?P<e>%s)\s*\.\s*get\s*\(\s*(?P<k>\w+)\s*\)\s*\.\s*map_or_else\s*\(\s*\|\s*\|\s*0\s*,\s*\|\s*x\s*\|\s*x\s*\.\s*stake\s*\)' % _E,
      r'(match \g<e>.get(\g<k>) { None => 0, Some(x) => x.stake })', None),
@@ -417,7 +418,29 @@ class FnEmitter:
                 if i > 0 and toks[i - 1].text in ('::', '.'):
                     continue
                 c = match_close(toks, i + 2)
-                edits.append(Edit(t.start, toks[c].end, '()', rule='D-b'))
+                # split top-level arguments; the first one is the format string
+                args = []
+                z = i + 3
+                a_start = z
+                while z < c:
+                    if toks[z].text in ('(', '[', '{'):
+                        z = match_close(toks, z)
+                    elif toks[z].text == ',':
+                        args.append((a_start, z - 1))
+                        a_start = z + 1
+                    z += 1
+                if a_start <= c - 1:
+                    args.append((a_start, c - 1))
+                args = args[1:]
+                spans = [(toks[a_].start, toks[b_].end) for (a_, b_) in args if a_ <= b_]
+
+                def mk(T, spans=spans):
+                    # the arguments are still evaluated by reference (as the formatting machinery does): keeps type
+                    # inference and any panic site inside an argument expression
+                    if not spans:
+                        return '()'
+                    return '{ ' + ' '.join('let _ = &(%s);' % T(x, y) for (x, y) in spans) + ' }'
+                edits.append(Edit(t.start, toks[c].end, func=mk, rule='D-b'))
                 self.fire('D-b', t.text + '!')
 
         # --- R1: bool &= / |=
@@ -660,9 +683,13 @@ class FnEmitter:
                 ka, kb = toks[i + 2].start, toks[c1 - 1].end
                 m_box = re.match(r'^\|\| Box :: new \( (\w+) :: new \( \) \)$', argtxt)
                 m_path = re.match(r'^\w+( :: \w+)*$', argtxt)
+                m_call1 = re.match(r'^\|\| (\w+(?: :: \w+)*) \( (\w+) \)$', argtxt)
                 if m_box:
                     fnpath = m_box.group(1) + '::new'
                     meth = 'vx_entry_or_box_new'
+                elif m_call1:
+                    fnpath = m_call1.group(1).replace(' ', '') + ', ' + m_call1.group(2)
+                    meth = 'vx_entry_or_call1'
                 elif m_path:
                     fnpath = argtxt.replace(' ', '')
                     meth = 'vx_entry_or_insert_with'
